@@ -12,7 +12,7 @@
    NewTaskInfo(last delivered pod version). *)
 From stdpp Require Import gmap.
 From Coq Require Import ZArith.
-From V Require Import Base.Res Sched.LedgerModel Sched.LedgerInv C08.Model C08.Laws C08.Lemmas C08.Lemmas2 C08.Refuted.
+From V Require Import Base.Res Sched.LedgerModel Sched.LedgerInv C08.Model C08.Laws C08.Lemmas C08.Lemmas2 C08.Prio C08.Refuted.
 Open Scope Z_scope.
 
 (* --- the two task-level operations every pod handler is made of --- *)
@@ -222,6 +222,33 @@ Theorem C08_view_determined : forall c c',
      (forall N', c_nodes c' !! n = Some N' -> node_equiv N N')).
 Proof. exact view_determined. Qed.
 Print Assumptions C08_view_determined.
+
+(* --- PriorityClass notifications and the job priority Snapshot() computes --- *)
+Theorem C08_priority_handlers_keep_inv : forall s e,
+  PInv s -> PInv (phandle s e) /\
+  ps_classes (phandle s e) = papply (ps_classes s) e /\ ps_pgclass (phandle s e) = papply_pg (ps_pgclass s) e.
+Proof. exact phandle_inv. Qed.
+Print Assumptions C08_priority_handlers_keep_inv.
+
+Theorem C08_priority_determined : forall h h',
+  fold_left papply h ∅ = fold_left papply h' ∅ ->
+  fold_left papply_pg h ∅ = fold_left papply_pg h' ∅ ->
+  forall j, job_priority (prun empty_ps h) j = job_priority (prun empty_ps h') j.
+Proof. exact priority_determined. Qed.
+Print Assumptions C08_priority_determined.
+
+(* before fix ec03bcc: two classes marked globalDefault, the later one deleted *)
+Theorem C08_priority_prefix_refuted :
+  exists h, fold_left papply h ∅ = fold_left papply [PClass pcA] ∅ /\
+            job_priority (prun_prefix empty_ps h) 1%positive <> job_priority (prun_prefix empty_ps [PClass pcA]) 1%positive.
+Proof. exact priority_prefix_refuted. Qed.
+Print Assumptions C08_priority_prefix_refuted.
+
+Example C08_priority_fixed :
+  job_priority (prun empty_ps [PClass pcA; PClass pcB; PClassDel 2%positive]) 1%positive = 10 /\
+  job_priority (prun empty_ps [PClass pcB; PClass pcA]) 1%positive = 10.
+Proof. exact priority_fixed. Qed.
+Print Assumptions C08_priority_fixed.
 
 (* --- finding F4: RemoveNode as it was before fix e29cb66 --- *)
 Theorem C08_converges_prefix_refuted :
